@@ -269,7 +269,7 @@ PROPS = {
                         on_build(r_winv.a04_window_invariant, 'u16'), on_build(r_winv.a04_window_invariant, 'ci')],
         explanation=('(S01) for WindowIterator and ReversedWindowIterator: size_hint is (r, Some(r)) of one field r; on every path of next() '
                      'a yielded item decrements r exactly once by 1 and is preceded by the test r != 0, None is returned exactly under r == 0 '
-                     'without touching r; every other Option-returning override (last) looks at r before yielding; count returns r. '
+                     'without touching r; every other Option-returning override (last) looks at r before yielding; count and an overridden ExactSizeIterator::len return r. '
                      'Hence the number of items still to come equals size_hint at every split point and an exhausted or empty iterator '
                      'never yields. (S10c) Clone of Window and its iterators is derived, or hand-written and field-wise: clone() builds a literal whose every field is the clone of the same field, clone_from() takes every field from the source on every path (a copy that keeps its own cursor is a rotated window). (S01c) get and Index::index obtain their slot from the one mapping slice_index(own index). (S03) new / from_parts / '
                      'empty agree on the derived fields: s_1 = size.saturating_sub(1), buffer length = size. (S02) Window\'s hand-written '
@@ -305,7 +305,7 @@ PROPS = {
         level_text='Mirror and signed-zero clauses only; exactness of the selection algorithms is not claimed.',
     ),
     'C17': dict(
-        rules=[r_conv.s19a_collapse_discipline, r_conv.s19b_same_name_wiring, r_conv.s19c_high_low_mirror, r_window.s01b_pos_len_iterators,
+        rules=[r_conv.s19a_collapse_discipline, r_conv.s19b_same_name_wiring, r_conv.s19c_high_low_mirror, r_conv.s19d_renko_volume_drained, r_window.s01b_pos_len_iterators,
                lambda ctx: r_absint.a01_constructors(ctx, groups=('method-new',), labels=('Renko::new', 'CollapseTimeframe::new', 'HeikinAshi::new'), rule_id='A01r', min_entries=3,
                    title='Renko::new, CollapseTimeframe::new, HeikinAshi::new reach no panic for any parameter value'),
                lambda ctx: r_absint.a02_next_with_facts(ctx, only=('Renko',), strict_module='methods::renko', rule_id='A02r')],
@@ -315,7 +315,7 @@ PROPS = {
                      'the accumulator; accumulation is accumulator + candle (in that order); new rejects period 0. (S19b) Candle + T takes open '
                      'from the left operand only, close from the right only, high/low through max/min of both, volume through +; every OHLCV '
                      'accessor, Candle::from, HLC::from and the tuple conversions wire each component to the same-named / same-position '
-                     'component; the batch collapse folds with the same Add. (S19c) every candle literal that computes both `high` and `low` (HeikinAshi::next, Candle + T, Candle::from) computes them by '
+                     'component; the batch collapse folds with the same Add, and every path of it that combines candles has first cut the input into chunks of `size`. (S19d) Renko::next drains its volume accumulator to 0 on every path that emits bricks, computes the per-brick volume from it, and keeps it on paths that emit nothing. (S19c) every candle literal that computes both `high` and `low` (HeikinAshi::next, Candle + T, Candle::from) computes them by '
                      'mirror-image expressions: a clamp present on one side and missing on the other yields a candle whose body leaves its own range.'),
         not_decided=['Heikin-Ashi recursion and output validity, Renko brick contiguity/sizing/volume conservation: numeric, not decided',
                      'A02r decides "Renko::next never panics" for integer arithmetic, casts and indexing with every float unconstrained; float results themselves are not bounded'],
